@@ -73,7 +73,15 @@ def cls_triple_pred_id_respaced(f):
     return re.search(rb"\] +[/\"]", pid) is not None
 
 
-CLASSIFIERS = {"triple_pred_id_respaced": cls_triple_pred_id_respaced}
+def cls_zone_2460(f):
+    """time.Parse accepts a zone of +/-24:60 (= 25:00); Time.Format prints +/-25:00, which time.Parse rejects"""
+    if f["class"] != "accept-unstable" or f["parser"] not in ("pred", "obj", "triple"):
+        return False
+    offs = re.findall(r'"off": (-?\d+)', json.dumps(f["value"]))
+    return any(abs(int(o)) == 90000 for o in offs) and f["reparsed"]["c"] == "err"
+
+
+CLASSIFIERS = {"triple_pred_id_respaced": cls_triple_pred_id_respaced, "zone_2460": cls_zone_2460}
 
 
 def replay_rows(witness):
